@@ -23,6 +23,7 @@ Fixpoint nodupb (l : list ident) : bool :=
   match l with [] => true | x :: r => negb (existsb (N.eqb x) r) && nodupb r end.
 
 Definition is_void (t : ty) : bool := match t with TVoid => true | _ => false end.
+Definition is_arr (t : ty) : bool := match t with TArr => true | _ => false end.
 
 Definition ty_unop (o : unop) (t : ty) : option ty :=
   match o, t with
@@ -35,7 +36,8 @@ Definition ty_binop (o : binop) (a b : ty) : option ty :=
   match o with
   | BAdd | BSub | BMul | BDiv | BMod => match a, b with TInt, TInt => Some TInt | _, _ => None end
   | BLt | BLe | BGt | BGe => match a, b with TInt, TInt => Some TBool | _, _ => None end
-  | BEq | BNe => if ty_eqb a b && negb (is_void a) then Some TBool else None       (* (T, T) -> bool *)
+  | BEq | BNe => if ty_eqb a b && negb (is_void a) && negb (is_arr a) then Some TBool else None
+      (* (T, T) -> bool for the scalar types and strings; arrays have no equality (the engines compare references) *)
   | BAnd | BOr => match a, b with TBool, TBool => Some TBool | _, _ => None end
   end.
 
@@ -76,6 +78,19 @@ Fixpoint ty_expr (L : tenv) (e : expr) {struct e} : option ty :=
       | Some TBool, Some ta, Some tb => if ty_eqb ta tb then Some ta else None
       | _, _, _ => None
       end
+  | EArr es =>                                                    (* [e1, ..., en] : array<int> when every ei : int *)
+      if (fix go (l : list expr) {struct l} : bool :=
+            match l with
+            | [] => true
+            | a :: l' => match ty_expr L a with Some TInt => go l' | _ => false end
+            end) es
+      then Some TArr else None
+  | EAt a i =>                                                    (* at : (array<int>, int) -> int *)
+      match ty_expr L a, ty_expr L i with
+      | Some TArr, Some TInt => Some TInt
+      | _, _ => None
+      end
+  | ELen a => match ty_expr L a with Some TArr => Some TInt | _ => None end
   end.
 
 Definition expr_has (L : tenv) (e : expr) (t : ty) : bool :=
